@@ -8,6 +8,17 @@ Open Scope string_scope.
 Open Scope list_scope.
 Open Scope nat_scope.
 
+(* SCOPE.  The real object keeps everything in ONE __dict__: the series under '_' + name next to its own bookkeeping (`span`, `index`,
+   `_attributes`, `_strict`; models: `names`, `dtype`).  The property's operations are "variable creation, whole-series, positional,
+   label and bulk assignment, values replacement" (+ add_attribute, strict toggle, read-only hooks).  An attribute assignment or
+   add_attribute that TARGETS the bookkeeping - a name for which `bookkeeping (kind s) name = true`: span, index, any name starting
+   with '_', and for models names / dtype - is not one of them; the real object accepts it (also under strict=True) and the
+   invariants then fail: C09_*_needs_scope_refuted.  Hence the hypothesis `in_scope (kind s) o` / `Forall (in_scope (kind s)) ops`
+   (= SetAttr / AddAttribute do not target a bookkeeping name; every other operation is in scope) on the history theorems.
+   WHAT IS ORACLE / K ONLY (no theorem): the TEXT of the near-miss message of strict=True (the model has exception classes, the
+   closest match is difflib's answer handed in as `hint`); that the dtype of a new variable is the one ASKED for (astype_dt is a Section
+   variable; oracle clause add_variable|dtype-not-imposed); the content written by a scalar / list `values` replacement
+   (C09_values_setter_array_content covers ndarray replacements). *)
 Section C09.
   Variable pycast : dtype -> pyval -> outcome pyval.
   Variable arrcast : dtype -> dtype -> pyval -> outcome pyval.
@@ -36,14 +47,15 @@ Section C09.
   Proof. exact (inv_init_model pycast arrcast infer astype_dt k sp st d default NAMES kwargs s u). Qed.
 
   (* every operation of the alphabet, accepted or rejected, any operand *)
-  Theorem C09_step_preserves_inv o s : Inv s -> Inv (fst (step o s)).
+  Theorem C09_step_preserves_inv o s : in_scope (kind s) o -> Inv s -> Inv (fst (step o s)).
   Proof. exact (step_preserves_inv pycast arrcast infer astype_dt itemseq_exn o s). Qed.
 
   (* ARBITRARY histories (no length bound): the final state and every intermediate state *)
-  Theorem C09_reachable_inv ops s : Inv s -> Inv (run ops s).
+  Theorem C09_reachable_inv ops s : Forall (in_scope (kind s)) ops -> Inv s -> Inv (run ops s).
   Proof. exact (reachable_inv pycast arrcast infer astype_dt itemseq_exn ops s). Qed.
 
-  Theorem C09_reachable_inv_every_state ops s : Inv s -> Forall (fun r => Inv (fst r)) (run_trace ops s).
+  Theorem C09_reachable_inv_every_state ops s :
+    Forall (in_scope (kind s)) ops -> Inv s -> Forall (fun r => Inv (fst r)) (run_trace ops s).
   Proof. exact (reachable_inv_every_state pycast arrcast infer astype_dt itemseq_exn ops s). Qed.
 
   (* exactly one CELL per period.  The model keeps shape and cells of a series separately; InvD s = every stored series holds
@@ -53,10 +65,11 @@ Section C09.
     InvD s <-> (forall x v, assoc x (vars s) = Some v -> length (vdata v) = length (span s)).
   Proof. exact (invD_unfolded s). Qed.
 
-  Theorem C09_step_preserves_one_cell_per_period o s : wf_key_op o -> InvD s -> InvD (fst (step o s)).
+  Theorem C09_step_preserves_one_cell_per_period o s : in_scope (kind s) o -> wf_key_op o -> InvD s -> InvD (fst (step o s)).
   Proof. exact (step_preserves_invD pycast arrcast infer astype_dt itemseq_exn o s). Qed.
 
-  Theorem C09_reachable_one_cell_per_period ops : Forall wf_key_op ops -> forall s, InvD s -> InvD (run ops s).
+  Theorem C09_reachable_one_cell_per_period ops :
+    Forall wf_key_op ops -> forall s, Forall (in_scope (kind s)) ops -> InvD s -> InvD (run ops s).
   Proof. exact (reachable_invD pycast arrcast infer astype_dt itemseq_exn ops). Qed.
 
   Theorem C09_init_model_one_cell_per_period k sp st d default NAMES kwargs :
@@ -66,19 +79,20 @@ Section C09.
 
   (* a variable stays in the index and keeps its dtype through any history; the span never changes *)
   Theorem C09_dtype_kept ops s x :
-    In x (index s) -> In x (index (run ops s)) /\ dtype_of (run ops s) x = dtype_of s x.
+    Forall (in_scope (kind s)) ops -> In x (index s) -> In x (index (run ops s)) /\ dtype_of (run ops s) x = dtype_of s x.
   Proof. exact (dtype_kept pycast arrcast infer astype_dt itemseq_exn ops s x). Qed.
 
   Theorem C09_dtype_as_created name value dt s s1 u ops :
-    add_variable pycast arrcast infer astype_dt name value dt s = (s1, Ret u) ->
+    add_variable pycast arrcast infer astype_dt name value dt s = (s1, Ret u) -> Forall (in_scope (kind s1)) ops ->
     exists d, dtype_of s1 name = Some d /\ dtype_of (run ops s1) name = Some d /\ In name (index (run ops s1)).
   Proof. exact (dtype_as_created pycast arrcast infer astype_dt itemseq_exn name value dt s s1 u ops). Qed.
 
-  Theorem C09_span_kept ops s : span (run ops s) = span s /\ kind (run ops s) = kind s.
+  Theorem C09_span_kept ops s : Forall (in_scope (kind s)) ops -> span (run ops s) = span s /\ kind (run ops s) = kind s.
   Proof. exact (span_kept pycast arrcast infer astype_dt itemseq_exn ops s). Qed.
 
   (* declaration order: `index` (and `names`) only grow at the end; an accepted add_variable puts the new name last *)
   Theorem C09_declaration_order_kept ops s :
+    Forall (in_scope (kind s)) ops ->
     (exists l, index (run ops s) = index s ++ l) /\ (exists l, names (run ops s) = names s ++ l).
   Proof. exact (declaration_order_kept pycast arrcast infer astype_dt itemseq_exn ops s). Qed.
 
@@ -94,7 +108,7 @@ Section C09.
   Proof. exact (init_model_names pycast arrcast infer astype_dt k sp st d default NAMES kwargs s u). Qed.
 
   Theorem C09_reachable_unique_names ops s :
-    Inv s -> (kind s <> CVC -> NoDup (names s)) -> (kind (run ops s) <> CVC -> NoDup (names (run ops s))).
+    Forall (in_scope (kind s)) ops -> Inv s -> (kind s <> CVC -> NoDup (names s)) -> (kind (run ops s) <> CVC -> NoDup (names (run ops s))).
   Proof. exact (reachable_invU pycast arrcast infer astype_dt itemseq_exn ops s). Qed.
 
   Theorem C09_row_names_nodup s : Inv s -> (kind s <> CVC -> NoDup (names s)) -> NoDup (row_names s).
@@ -128,6 +142,40 @@ Section C09.
     single o -> step o s = (s', Raise e) ->
     s' = s \/ (exists d c, pycast d c = Raise e \/ exists src, arrcast src d c = Raise e).
   Proof. exact (failed_single_assignment_no_change pycast arrcast infer astype_dt itemseq_exn o s s' e). Qed.
+
+  (* the PRECISE version: a raising single-variable operation changes something only when it is an in-place copy (label-slice
+     assignment, or whole-series assignment of a non-sequence = an ndarray) whose element cast failed part-way, and then only the
+     cells of the addressed series differ (same dtype, same shape, all other series / index / attributes untouched).  Wrong length
+     into a slice, nesting too deep, step 0, ragged nesting, a sequence into one cell, a whole-series LIST with a bad cell,
+     unknown / duplicate / reserved names: s' = s. *)
+  Theorem C09_failed_single_assignment_precise o s s' e :
+    single o -> step o s = (s', Raise e) ->
+    s' = s \/
+    exists name,
+      (exists v v', assoc name (vars s) = Some v /\ s' = set_vars s (assoc_set name v' (vars s)) /\
+                    vdtype v' = vdtype v /\ vshape v' = vshape v) /\
+      (exists d c, pycast d c = Raise e \/ exists src, arrcast src d c = Raise e) /\
+      ((exists a b st v, o = SetItem (KSlice name a b st) v) \/
+       (exists v h, o = SetAttr name v h /\ is_sequence v = false) \/
+       (exists v, o = SetItem (KName name) v /\ is_sequence v = false)).
+  Proof. exact (failed_single_assignment_precise pycast arrcast infer astype_dt itemseq_exn o s s' e). Qed.
+
+  Theorem C09_sequence_assignment_atomic name value s s' e :
+    is_sequence value = true -> setattr_var pycast arrcast name value s = (s', Raise e) -> s' = s.
+  Proof. exact (sequence_assignment_atomic pycast arrcast name value s s' e). Qed.
+
+  Theorem C09_label_assignment_atomic name l value s s' e :
+    setitem pycast arrcast infer itemseq_exn (KLabel name l) value s = (s', Raise e) -> s' = s.
+  Proof. exact (label_assignment_atomic pycast arrcast infer itemseq_exn name l value s s' e). Qed.
+
+  (* fix d82b358: a name whose storage key '_' + name is taken ('attributes', 'strict', ...) is refused, nothing changes *)
+  Theorem C09_reserved_name_rejected name value dt s :
+    storage_taken name s = true ->
+    exists e, add_variable pycast arrcast infer astype_dt name value dt s = (s, Raise e) /\ e = DuplicateNameError.
+  Proof. exact (reserved_name_rejected pycast arrcast infer astype_dt name value dt s). Qed.
+
+  Theorem C09_attributes_and_strict_are_reserved s : storage_taken "attributes" s = true /\ storage_taken "strict" s = true.
+  Proof. exact (attributes_and_strict_are_reserved s). Qed.
 
   Theorem C09_add_variable_atomic name value dt s s' e :
     add_variable pycast arrcast infer astype_dt name value dt s = (s', Raise e) -> s' = s.
@@ -210,7 +258,7 @@ Proof. exact (failed_single_assignment_np o s s' e). Qed.
 
 (* the model's totalisation default (OtherError = "outside the model") is reached by NO operation from a state satisfying the
    invariant: no statement above holds by virtue of a default branch *)
-Theorem C09_no_other_error o s : Inv s -> snd (np_step o s) <> Raise OtherError.
+Theorem C09_no_other_error o s : in_scope (kind s) o -> Inv s -> snd (np_step o s) <> Raise OtherError.
 Proof. exact (np_no_other_error o s). Qed.
 
 (* read-only hooks (_ipython_key_completions_, dir(), `in`, nbytes): they change nothing, and what they return *)
@@ -233,6 +281,32 @@ Theorem C09_nbytes_spec s :
   snd (read QNbytes s) =
   Ret (VNat (fold_right (fun x acc => match dtype_of s x with Some d => length (span s) * itemsize d + acc | None => acc end) 0 (index s))).
 Proof. exact (nbytes_spec s). Qed.
+
+(* the scope hypothesis is NECESSARY: assignments to the bookkeeping are accepted (the first also under strict=True) and break the
+   invariants / change `values`, `size`, the default dtype; '_X' = v replaces the series object itself (the model gives up) *)
+Theorem C09_span_assignment_needs_scope_refuted :
+  exists s o, Inv s /\ strict s = true /\ ~ in_scope (kind s) o /\ snd (np_step o s) = Ret tt /\
+    span (fst (np_step o s)) <> span s /\ ~ Inv (fst (np_step o s)).
+Proof. exact span_assignment_needs_scope_refuted. Qed.
+
+Theorem C09_index_assignment_needs_scope_refuted :
+  exists s o, Inv s /\ ~ in_scope (kind s) o /\ snd (np_step o s) = Ret tt /\ ~ Inv (fst (np_step o s)).
+Proof. exact index_assignment_needs_scope_refuted. Qed.
+
+Theorem C09_names_assignment_needs_scope_refuted :
+  exists s o, Inv s /\ ~ in_scope (kind s) o /\ snd (np_step o s) = Ret tt /\
+    values_shape s = Ret [2; 3] /\ values_shape (fst (np_step o s)) = Ret [1; 3] /\ size_of (fst (np_step o s)) = 3.
+Proof. exact names_assignment_needs_scope_refuted. Qed.
+
+Theorem C09_dtype_assignment_needs_scope_refuted :
+  exists s o, Inv s /\ ~ in_scope (kind s) o /\ snd (np_step o s) = Ret tt /\
+    dtype_of (fst (np_step (AddVariable "N" (OScalar (PFlt (FHalf 3))) None) s)) "N" = Some DFloat /\
+    dtype_of (fst (np_step (AddVariable "N" (OScalar (PFlt (FHalf 3))) None) (fst (np_step o s)))) "N" = Some DInt.
+Proof. exact dtype_assignment_needs_scope_refuted. Qed.
+
+Theorem C09_underscore_assignment_needs_scope_refuted :
+  exists s o, Inv s /\ ~ in_scope (kind s) o /\ snd (np_step o s) = Raise OtherError.
+Proof. exact underscore_assignment_needs_scope_refuted. Qed.
 
 (* kept findings (known_findings.d/C09.json), mirrored by the model *)
 Theorem C09_partial_write_refuted :
@@ -269,6 +343,16 @@ Print Assumptions C09_row_names_nodup.
 Print Assumptions C09_values_stack.
 Print Assumptions C09_values_setter_array_content.
 Print Assumptions C09_failed_single_assignment_no_change.
+Print Assumptions C09_failed_single_assignment_precise.
+Print Assumptions C09_sequence_assignment_atomic.
+Print Assumptions C09_label_assignment_atomic.
+Print Assumptions C09_reserved_name_rejected.
+Print Assumptions C09_attributes_and_strict_are_reserved.
+Print Assumptions C09_span_assignment_needs_scope_refuted.
+Print Assumptions C09_index_assignment_needs_scope_refuted.
+Print Assumptions C09_names_assignment_needs_scope_refuted.
+Print Assumptions C09_dtype_assignment_needs_scope_refuted.
+Print Assumptions C09_underscore_assignment_needs_scope_refuted.
 Print Assumptions C09_add_variable_atomic.
 Print Assumptions C09_duplicate_name_rejected.
 Print Assumptions C09_unknown_name_item_rejected.
